@@ -302,10 +302,16 @@ def run2(ctx, n, have_model, gen="core2"):
             bits = int(dm) if dm.isdigit() else 0
             indom = bits & need == need
             if gen == "core4":
-                # no lexer-half theorem for core4 yet: the domain is the executable hypothesis itself (shape check = 1)
+                # D = in the domain of C02_text_roundtrip_core4 (core4_doc && lex_safe4_doc): the shape check must be 1
+                # (C02_shape_check_core4_complete); no prefix = core4 but outside lex_safe4; X = outside core4
+                indom4 = r.startswith("D")
                 incore4 = not r.startswith("X")
-                r = r.lstrip("X")
-                ctx.hist("core4_shape_check", ("core4:" if incore4 else "outside core4:") + {"0": "not-core4", "1": "shape-ok", "2": "mismatch", "3": "LEXERR"}.get(r, r))
+                r = r.lstrip("DX")
+                ctx.hist("core4_shape_check", ("core4+lex_safe4:" if indom4 else "core4 only:" if incore4 else "outside core4:")
+                         + {"0": "not-core4", "1": "shape-ok", "2": "mismatch", "3": "LEXERR"}.get(r, r))
+                if indom4 and r != "1":
+                    ctx.correspondence_failure({"doc": d, "text": t, "shape_check": r},
+                                               "document in the domain of text_roundtrip_core4 but the extracted shape check is not 1: theorem and extraction disagree")
                 continue
             ctx.hist(gen + "_shape_check", {"0": "not-" + gen, "1": "shape-ok", "2": "MISMATCH", "3": "LEXERR"}.get(r, r)
                      + ("" if indom else " (outside lex_safe)"))
